@@ -54,8 +54,23 @@ def main() -> int:
             else:
                 print("PATCH DOES NOT APPLY")
                 return 3
-        tests = subprocess.run(["/venv/bin/python", "-m", "pytest", "-q", "-p", "no:cacheprovider", "-x"], cwd=worktree,
-                               capture_output=True, text=True).stdout.strip().splitlines()[-1:]
+        def run_tests() -> list[str]:
+            return subprocess.run(["/venv/bin/python", "-m", "pytest", "-q", "-p", "no:cacheprovider", "-x"], cwd=worktree,
+                                  capture_output=True, text=True).stdout.strip().splitlines()[-1:]
+
+        tests = run_tests()
+        if on_base is None and "failed" in " ".join(tests):
+            # the diff applied textually on HEAD but does not fit a later fix commit (e.g. it drops an import the fix
+            # needs): that merge is not the change its author validated - fall back to the commit it was written for
+            for base in BASES:
+                git("-C", worktree, "reset", "-q", "--hard")
+                git("-C", worktree, "clean", "-fdq")
+                git("-C", worktree, "checkout", "-q", "--detach", base)
+                if git("-C", worktree, "apply", patch).returncode == 0:
+                    on_base = base
+                    print(f"NOTE: on HEAD the patched tree fails the tests ({' '.join(tests)}); applied on older commit {base}")
+                    tests = run_tests()
+                    break
         print("tests:", *tests)
         for name in (".coverage", "coverage.xml"):
             Path(worktree, name).unlink(missing_ok=True)
